@@ -8,7 +8,6 @@ import (
 	"testing"
 
 	"verif/internal/credx"
-	"verif/internal/ev"
 )
 
 // Frozen minimal history of the duplicate-key defect (fixed in /repo by a59c3bb):
@@ -47,7 +46,7 @@ func TestRegressionAddDeleteOrdering(t *testing.T) {
 		{KeyLen: 32, Mode: credx.UDPOnly, Initial: map[string]int{"bob": 2}, Ops: []cop{{Op: "update", Name: "bob", Key: 3}, {Op: "delete", Name: "bob"}}, Gate: "udp", Lead: 0, Tight: true, Reps: 150},
 		{KeyLen: 16, Mode: credx.Both, Initial: map[string]int{}, File: map[string]int{"alice": 1}, Ops: []cop{{Op: "add", Name: "bob", Key: 2}, {Op: "reload"}}, Gate: "tcp", Lead: 0, Tight: true, Reps: 150},
 	} {
-		if p.File != nil && ev.IsKnown("C08", sigRaceLoad) {
+		if p.File != nil && isKnown(sigRaceLoad) {
 			continue
 		}
 		if v := runCPlan(rigs, p, recConc); v != "" {
